@@ -10,7 +10,7 @@ git -C /repo worktree remove --force $WT 2>/dev/null; rm -rf $WT
 git -C /repo worktree add -q --detach $WT HEAD || exit 9
 cleanup() { git -C /repo worktree remove --force $WT 2>/dev/null; rm -rf $WT; }
 trap cleanup EXIT
-cd $WT
+cd $WT; ln -sfn /tmp/vseed-target $WT/target
 git apply --check $SRC/patch.diff || { echo "RESULT $ID-$V patch-does-not-apply"; exit 1; }
 git apply $SRC/patch.diff
 cargo build --offline -q 2>&1 | tail -3
